@@ -793,3 +793,128 @@ Section LocatedStep.
     specialize (IH (wstep w ev) HW' F1 Hrest). rewrite S1, D1 in IH. fold (wrun (wstep w ev) evs). rewrite IH, L1. lia.
   Qed.
 End LocatedStep.
+
+(* ---------- the world refines the call-list semantics of Ledger.v, so its whole-history ledger applies ---------- *)
+Section Refinement.
+  Variable va : string -> string -> bool.
+  Variable dv : string -> string -> string -> option string.
+  Variable av : string -> bool.
+  Notation execute := (execute va dv av).
+  Notation wstep := (wstep va dv av).
+  Notation wrun := (wrun va dv av).
+  Notation step := (Ledger.step va dv av).
+
+  Fixpoint reply_calls (next : N) (r : response) : list call :=
+    match r with
+    | [] => []
+    | sm :: rest =>
+        match sm_msg sm with
+        | ATransfer _ _ _ _ _ _ => if sm_reply sm then CReply (sm_id sm) (ROk next) :: reply_calls (next + 1) rest else reply_calls next rest
+        | _ => reply_calls next rest
+        end
+    end.
+
+  (* the contract calls a world event consists of (none when its transaction is rolled back) *)
+  Definition wcalls (w : world) (ev : wevent) : list call :=
+    match ev with
+    | WExec e i m =>
+        match execute (w_store w) e i m with
+        | Ok (s', r) => if committed va dv av w ev then CExec e i m :: reply_calls (w_next w) r else []
+        | _ => []
+        end
+    | WExecRefused _ _ _ => []
+    | WRelay seq o =>
+        match find_pkt seq (w_packets w) with
+        | Some p =>
+            match wp_state p with
+            | Flight => [CSudo (match o with
+                                | OAckOk => SAck (wp_channel p) seq true
+                                | OAckErr => SAck (wp_channel p) seq false
+                                | OTimeout => STimeout (wp_channel p) seq
+                                end)]
+            | _ => []
+            end
+        | None => []
+        end
+    | WStray m =>
+        if match m with
+           | SAck ch seq _ | STimeout ch seq =>
+               String.eqb ch (pc_channel (protocol (cfg (w_store w))))
+               && match nfind seq (inflight (w_store w)) with Some _ => true | None => false end
+           end
+        then [] else [CSudo m]
+    end.
+
+  Definition only_fwd_of_exec (g g' : ghost) (d : N) : Prop := g_fwd g' = g_fwd g + d.
+
+  Lemma step_store s g c : fst (step (s, g) c) = fst (apply_call va dv av s c).
+  Proof. unfold Ledger.step. destruct (apply_call va dv av s c). reflexivity. Qed.
+  Lemma step_fwd s g c : g_fwd (snd (step (s, g) c)) = g_fwd g + fwd_delta va dv av s c.
+  Proof. unfold Ledger.step. destruct (apply_call va dv av s c). reflexivity. Qed.
+
+  Lemma dispatch_refines r : forall s pk next s' pk' next' g,
+    dispatch s pk next r = Some (s', pk', next') ->
+    fst (fold_left step (reply_calls next r) (s, g)) = s'
+    /\ g_fwd (snd (fold_left step (reply_calls next r) (s, g))) = g_fwd g.
+  Proof.
+    induction r as [|sm r IH]; intros s pk next s' pk' next' g H; cbn [dispatch reply_calls] in *.
+    - inversion H; subst. split; reflexivity.
+    - destruct (sm_msg sm) eqn:Msg; try (apply (IH _ _ _ _ _ _ g H)).
+      destruct (sm_reply sm); [| apply (IH _ _ _ _ _ _ g H)].
+      destruct (reply s (sm_id sm) (ROk next)) as [[s1 r1]|k|site] eqn:R; try discriminate.
+      cbn [fold_left].
+      assert (E : step (s, g) (CReply (sm_id sm) (ROk next)) = (s1, snd (step (s, g) (CReply (sm_id sm) (ROk next))))).
+      { rewrite (surjective_pairing (step (s, g) (CReply (sm_id sm) (ROk next)))). f_equal.
+        rewrite step_store. unfold apply_call. rewrite R. reflexivity. }
+      rewrite E. destruct (IH _ _ _ _ _ _ (snd (step (s, g) (CReply (sm_id sm) (ROk next)))) H) as [A B].
+      split; [exact A|]. rewrite B. rewrite step_fwd. unfold fwd_delta. destruct (negb _); cbn; lia.
+  Qed.
+
+  Theorem wstep_refines w ev g :
+    let sg' := fold_left step (wcalls w ev) (w_store w, g) in
+    fst sg' = w_store (wstep w ev) /\ g_fwd (snd sg') = g_fwd g + wfwd va dv av w ev.
+  Proof.
+    cbv zeta. destruct w as [s pk next]. destruct ev as [e i m | e i m | seq o | m]; cbn [wcalls World.wstep wfwd w_store w_packets w_next].
+    - unfold committed. cbn [w_store w_packets w_next].
+      destruct (execute s e i m) as [[s' r]|k|site] eqn:H; try (cbn; split; [reflexivity | lia]).
+      destruct (dispatch s' (untrack (removed_seqs s s') pk) next r) as [[[s'' pk''] nx]|] eqn:Dp; [| cbn; split; [reflexivity | lia]].
+      cbn [fold_left w_store].
+      assert (E : step (s, g) (CExec e i m) = (s', snd (step (s, g) (CExec e i m)))).
+      { rewrite (surjective_pairing (step (s, g) (CExec e i m))). f_equal. rewrite step_store. unfold apply_call. rewrite H. reflexivity. }
+      rewrite E. destruct (dispatch_refines r _ _ _ _ _ _ (snd (step (s, g) (CExec e i m))) Dp) as [A B].
+      split; [exact A|]. rewrite B. apply step_fwd.
+    - cbn. split; [reflexivity | lia].
+    - destruct (find_pkt seq pk) as [p|]; [| cbn; split; [reflexivity | lia]].
+      destruct (wp_state p); try (cbn; split; [reflexivity | lia]).
+      cbn [fold_left]. set (m := match o with OAckOk => _ | OAckErr => _ | OTimeout => _ end).
+      split.
+      + rewrite step_store. unfold apply_call. destruct (sudo s m) as [[s' r]|k|site]; reflexivity.
+      + rewrite step_fwd. unfold fwd_delta. destruct (negb _); cbn; lia.
+    - destruct (match m with SAck ch seq _ | STimeout ch seq => _ end); [cbn; split; [reflexivity | lia]|].
+      cbn [fold_left]. split.
+      + rewrite step_store. unfold apply_call. destruct (sudo s m) as [[s' r]|k|site]; reflexivity.
+      + rewrite step_fwd. unfold fwd_delta. destruct (negb _); cbn; lia.
+  Qed.
+
+  (* the ghost counters of Ledger.v carried along a world history *)
+  Fixpoint wghost (w : world) (g : ghost) (evs : list wevent) : ghost :=
+    match evs with
+    | [] => g
+    | ev :: rest => wghost (wstep w ev) (snd (fold_left step (wcalls w ev) (w_store w, g))) rest
+    end.
+
+  Lemma Led_fold s0 cs : forall sg, Led s0 sg -> Led s0 (fold_left step cs sg).
+  Proof. induction cs as [|c cs IH]; intros sg H; [exact H|]. cbn [fold_left]. apply IH. apply Led_step. exact H. Qed.
+
+  Theorem world_ledger s0 w g evs :
+    Led s0 (w_store w, g) ->
+    Led s0 (w_store (wrun w evs), wghost w g evs)
+    /\ g_fwd (wghost w g evs) = g_fwd g + total_fwd va dv av w evs.
+  Proof.
+    revert w g. induction evs as [|ev evs IH]; intros w g H; cbn [World.wrun fold_left wghost total_fwd]; [split; [exact H | lia]|].
+    destruct (wstep_refines w ev g) as [A B]. cbv zeta in A, B.
+    assert (H' : Led s0 (w_store (wstep w ev), snd (fold_left step (wcalls w ev) (w_store w, g)))).
+    { rewrite <- A. rewrite <- surjective_pairing. apply Led_fold. exact H. }
+    destruct (IH (wstep w ev) _ H') as [C D]. split; [exact C|]. rewrite D, B. lia.
+  Qed.
+End Refinement.
